@@ -630,39 +630,38 @@ Definition guard_gcp_opt (s : vec) (rank : Z) (init : initk) (opt_ok : bool) : r
 (* ======================================================================================== *)
 (* wave 4                                                                                     *)
 (* ======================================================================================== *)
-(* sptensor.innerprod(other) with other a Kruskal or Tucker tensor: the shape tests in front of the early return look at sparse and
-   dense operands only, so a receiver that stores no entry answers 0 (C19-N21, open); a receiver with entries hands the call to
-   other.innerprod(self), which compares "self.shape != other.shape" with the operands swapped *)
+(* sptensor.innerprod(other) with other a Kruskal or Tucker tensor (C19-N21 repaired, 76fa98e): "isinstance(other, (ktensor, ttensor))
+   and self.shape != other.shape" sits in front of the "all entries are zero" early return like the tests for sparse and dense
+   operands; a receiver without entries then answers 0; a receiver with entries hands the call to other.innerprod(self), which
+   compares "self.shape != other.shape" once more with the operands swapped *)
 Definition guard_sptensor_innerprod_kt (s : vec) (empty : bool) (u : vec) : res unit :=
-  if empty then Ok tt else guard_same_shape u s.
+  guard_same_shape s u ;; if empty then Ok tt else guard_same_shape u s.
 
-(* sptensor.contract(i1, i2) as REPAIRED by fixes/C19-N22.diff (the dense method has the range test since d384651; the sparse one
-   indexes self.shape and self.subs with the modes as they come, so negative modes wrap around: C19-N22, open): range, equal sizes,
-   different modes; nothing later rejects *)
+(* sptensor.contract(i1, i2) (C19-N22 repaired, db95721: "0 <= i_0 < ndims and 0 <= i_1 < ndims" first, as the dense method has it
+   since d384651): range, equal sizes, different modes; nothing later rejects *)
 Definition guard_sptensor_contract (s : vec) (i1 i2 : Z) : res unit :=
   let N := ndim s in
   chk (in_range N i1 && in_range N i2) ;; chk (sz s i1 =? sz s i2) ;; chk (negb (i1 =? i2)).
 
-(* sptensor.nvecs(n, r) as REPAIRED by fixes/C19-N23.diff: "n not in range(self.ndims)" first (today the mode is only used in
-   np.setdiff1d(arange(ndims), n), which silently ignores a mode that does not exist: C19-N23, open) *)
+(* sptensor.nvecs(n, r) (C19-N23 repaired, 453f75b): "not 0 <= n < self.ndims" first *)
 Definition guard_sptensor_nvecs (s : vec) (n : Z) : res unit := guard_mode s n.
 
-(* sptensor.scale(factor, dims), factor a dense or sparse tensor: the generated tt_dimscheck, then "if self.nnz == 0: return
-   self.copy()" BEFORE "np.array_equal(factor.shape, shape[dims])": a receiver that stores no entry answers whatever the factor's
-   shape (C19-N24, open); otherwise as tensor.scale *)
+(* sptensor.scale(factor, dims), factor a dense or sparse tensor: the generated tt_dimscheck, then (C19-N24 repaired, d89c921) a
+   receiver that stores no entry compares "np.array_equal(factor.shape, np.array(self.shape)[dims])" before it returns its copy;
+   a receiver with entries makes the same comparison in the branch of the factor's class *)
 Definition guard_sptensor_scale (s : vec) (empty : bool) (f d : vec) : res unit :=
   match tt_dimscheck (ndim s) None (Some d) None with
   | Err => Err
-  | Ok (sd, _) => if empty then Ok tt else chk (shape_eqb f (pickz s sd))
+  | Ok (sd, _) => if empty then chk (shape_eqb f (pickz s sd)) ;; Ok tt else chk (shape_eqb f (pickz s sd))
   end.
 Definition pre_sptensor_scale (s : vec) (empty : bool) (f d : vec) : bool := pre_scale s f d.
 
 (* K.update(modes, data) (in place): modes strictly ascending, each one -1 (the weights) or a mode of the tensor, and data long enough
    for the blocks that are asked for (R entries for the weights, shape[k] * R for factor k; surplus data only raises a warning,
-   which upstream tests pin).  Guard = the code AS REPAIRED by fixes/C19-N25.diff: the sortedness test "np.all(modes[:-1] <
-   modes[1:])", then a validation loop over the modes that adds up `needed` and stops at the first invalid mode, then "len(data) <
-   needed" — all before the first in-place assignment.  (Today the tests sit inside the update loop: a request that fails at a later
-   block has already overwritten the earlier ones, modes below -1 wrap around, repeated modes pass "<=": C19-N25, open.) *)
+   which upstream tests pin).  Guard = the code (C19-N25 repaired, b9311d6): the sortedness test "np.all(modes[:-1] < modes[1:])",
+   then a validation loop over the modes that adds up `needed` and stops at the first invalid mode, then "len(data) < needed" — all
+   before the first in-place assignment; the update loop that follows repeats the tests per block and can no longer fail
+   (Proofs/C19W5K.v: proved over the method as generated from ktensor.py) *)
 Definition upd_need (s : vec) (R : Z) (k : Z) : Z := if k =? -1 then R else sz s k * R.
 Definition zsum (l : vec) : Z := fold_right Z.add 0 l.
 Fixpoint strict_asc (l : vec) : bool :=
@@ -689,8 +688,40 @@ Definition guard_ktensor_update (s : vec) (R : Z) (modes : vec) (dlen : Z) : res
 
 (* X.mask(W) (tensor, sptensor, ktensor): "Mask cannot be bigger than the data tensor" — W has the order of X and no mode of W is
    longer than the mode of X.  The code: "len(W.shape) != len(self.shape) or np.any(np.array(W.shape) > np.array(self.shape))"
-   (sptensor, ktensor; tensor.mask as repaired by fixes/C19-N26.diff — today it lacks the first test and numpy broadcasts the
-   comparison of the two size vectors: C19-N26, open) *)
+   (all three classes; tensor.mask since C19-N26 was repaired, 553ad5e) *)
 Definition pre_mask (s w : vec) : bool := (zlen w =? zlen s) && forallb (fun p => fst p <=? snd p) (combine w s).
 Definition guard_mask (s w : vec) : res unit :=
   if negb (zlen w =? zlen s) || existsb (fun p => fst p >? snd p) (combine w s) then Err else Ok tt.
+
+(* ======================================================================================== *)
+(* wave 5                                                                                     *)
+(* ======================================================================================== *)
+(* sptensor.scale(factor, dims) with a numpy VECTOR of length flen as factor: one mode, and the vector has that mode's length.
+   The code: the generated tt_dimscheck; "if self.nnz == 0:" compares shapes for tensor / sptensor factors only and returns the
+   copy (C19-N27, open: a receiver that stores no entry answers whatever the vector's length and however many modes are listed);
+   otherwise "if factor.shape[0] != shapeArray[dims]" — the truth value of a comparison vector, which numpy refuses unless it has
+   exactly one entry (an empty mode list cannot come out of tt_dimscheck's callers here: the stream lists at least one mode) *)
+Definition pre_sptensor_scale_arr (s : vec) (empty : bool) (flen : Z) (d : vec) : bool :=
+  modes_ok (ndim s) d && match d with [m] => flen =? sz s m | _ => false end.
+Definition guard_sptensor_scale_arr (s : vec) (empty : bool) (flen : Z) (d : vec) : res unit :=
+  match tt_dimscheck (ndim s) None (Some d) None with
+  | Err => Err
+  | Ok (sd, _) => if empty then Ok tt else match sd with [m] => chk (flen =? sz s m) | _ => Err end
+  end.
+
+(* tensor.ttsv(vector, skip_dim) with the default algorithm (version 2; source comment "Sizes of all modes must be the same"):
+   "skip_dim < 0" is the only test written down.  dnew = skip_dim + 1 modes are kept, drem = ndims - dnew are multiplied: for
+   i = drem .. 1 the data is reshaped to (sz ** (dnew + i - 1), sz) with sz = shape[0] (numpy: the element count must be
+   sz ** ndims at the first step, after which it stays a power of sz) and multiplied by the vector (numpy: length sz); with
+   nothing to multiply the result is reshaped to dnew modes of size sz when dnew >= 2 (numpy: element count sz ** dnew).
+   Nothing compares the mode sizes with each other or skip_dim with ndims: C19-N28, open *)
+Definition ttsv_dnew (skip : option Z) : Z := match skip with None => 0 | Some k => k + 1 end.
+Definition cubical (s : vec) : bool := forallb (fun x => x =? sz s 0) s.
+Definition pre_ttsv (s : vec) (vlen : Z) (skip : option Z) : bool :=
+  match skip with Some k => in_range (ndim s) k | None => true end && cubical s
+  && ((ndim s - ttsv_dnew skip =? 0) || (vlen =? sz s 0)).
+Definition guard_ttsv (s : vec) (vlen : Z) (skip : option Z) : res unit :=
+  chk (match skip with Some k => 0 <=? k | None => true end) ;;
+  let d := ndim s in let n0 := sz s 0 in let dnew := ttsv_dnew skip in
+  if 0 <? d - dnew then chk (zprod s =? n0 ^ d) ;; chk (n0 =? vlen)
+  else if 2 <=? dnew then chk (zprod s =? n0 ^ dnew) else Ok tt.
